@@ -20,7 +20,16 @@ lane() {
   for s in "$@"; do
     prop=${s%%-*}
     if ! git -C $S/r$k apply /verif/seeded/$s/patch.diff 2>/dev/null; then
-      echo -e "$s\t$prop\tpatch-does-not-apply\t$rhead\t$vhead"; continue
+      if ! git -C $S/r$k apply --3way /verif/seeded/$s/patch.diff 2>/dev/null || git -C $S/r$k diff --name-only --diff-filter=U | grep -q .; then
+        git -C $S/r$k reset -q --hard; echo -e "$s\t$prop\tpatch-does-not-apply\t$rhead\t$vhead"; continue
+      fi
+      git -C $S/r$k reset -q
+    fi
+    # does the change still break the property on this tree?  (its own demonstration must still fail)
+    (cd $S/r$k && PYTHONPATH=$S/r$k PYTHONHASHSEED=0 timeout 600 /venv/bin/python /verif/seeded/$s/demo.py >/dev/null 2>&1); demo=$?
+    if [ $demo -eq 0 ]; then
+      git -C $S/r$k checkout -q -- . ; git -C $S/r$k clean -fdq
+      echo -e "$s\t$prop\tneutralised(demo-passes-with-patch)\t$rhead\t$vhead"; continue
     fi
     out=$(cd $S/v$k && VERIF_REPO=$S/r$k timeout 1500 ./check $prop --tier quick 2>/dev/null | grep -E '^(VIOLATION|KNOWN-FINDING)')
     git -C $S/r$k checkout -q -- . ; git -C $S/r$k clean -fdq
